@@ -111,6 +111,59 @@ func buildInt(c *intCase) *type1.Font {
 			}
 			f.Glyphs[fmt.Sprintf("s%d", i)] = g
 		}
+	case "stemfew":
+		// one glyph per value with one to four stems in each direction: the
+		// lists for which a writer could choose another operator (three
+		// stems with equal outer widths and evenly spaced centres) among
+		// them, ascending or with one pair stored upper edge first
+		abs := func(v int32) int32 {
+			if v < 0 {
+				return -v
+			}
+			return v
+		}
+		for i, v := range c.Values {
+			a := v
+			if a > 30000 {
+				a = 30000
+			} else if a < -30000 {
+				a = -30000
+			}
+			u := abs(v)
+			w := 1 + u%50
+			d := w + 3 + (u/50)%100
+			e := (u / 7) % 3 // the middle stem is wider by 2e, centres stay evenly spaced
+			triple := func(start int32, flip int32) []funit.Int16 {
+				l := []int32{start, start + w, start + d - e, start + d + w + e, start + 2*d, start + 2*d + w}
+				if flip < 3 {
+					l[2*flip], l[2*flip+1] = l[2*flip+1], l[2*flip]
+				}
+				var res []funit.Int16
+				for _, x := range l {
+					res = append(res, funit.Int16(x))
+				}
+				return res
+			}
+			g := &type1.Glyph{WidthX: 500}
+			switch i % 5 {
+			case 0:
+				g.HStem = []funit.Int16{funit.Int16(a), funit.Int16(a + w)}
+				g.VStem = []funit.Int16{funit.Int16(a + w), funit.Int16(a)}
+			case 1:
+				g.HStem = triple(a, 3)[:4]
+				g.VStem = triple(a+1, 0)[:4]
+			case 2:
+				g.HStem = triple(a, 3)
+				g.VStem = triple(a+5, 3)
+			case 3:
+				g.HStem = triple(a, (u/3)%3)
+				g.VStem = triple(a-2, (u/5)%3)
+			default:
+				g.HStem = append([]funit.Int16{funit.Int16(a - 40), funit.Int16(a - 20)}, triple(a, 3+(u/3)%2*(u%3-3))...)
+				g.VStem = append(triple(a, 3), funit.Int16(a+2*d+w+10), funit.Int16(a+2*d+w+30))
+			}
+			f.Glyphs[fmt.Sprintf("t%d", i)] = g
+		}
 	}
 	return f
 }
@@ -222,11 +275,11 @@ func sweepValues() []int32 {
 func TestP1Integers(t *testing.T) {
 	rec := ev.New("C20", "integers")
 	defer rec.Finish(t)
-	rec.Rule("integers as coordinate deltas (chains of +v/-v lines and curves so that positions stay small), advance widths (one glyph per value, WidthX and WidthY) and stem values: -70,000..70,000 (every 7th value in quick, every value in thorough), all number-format boundaries and powers of two +-3 over the whole int32 range. Each font is decoded by type1.Read (exact equality with the original) and by the independent decoder, which also checks the byte form of every number (1 byte for |v| <= 107, 2 bytes up to 1131, else 5) and that no integer is written as a quotient. Non-trivial: every (kind, value) once.")
+	rec.Rule("integers as coordinate deltas (chains of +v/-v lines and curves so that positions stay small), advance widths (one glyph per value, WidthX and WidthY) and stem values (200 stems per glyph, and one glyph per value with one to four stems per direction: single stems, pairs, triples with equal outer widths and evenly spaced centres - ascending or with one pair stored upper edge first - and such a triple after or before a fourth stem): -70,000..70,000 (every 7th value in quick, every value in thorough), all number-format boundaries and powers of two +-3 over the whole int32 range. Each font is decoded by type1.Read (exact equality with the original) and by the independent decoder, which also checks the byte form of every number (1 byte for |v| <= 107, 2 bytes up to 1131, else 5) and that no integer is written as a quotient. Non-trivial: every (kind, value) once.")
 	vals := sweepValues()
 	const chunk = 6000
 	k := 0
-	for _, kind := range []string{"delta", "width", "stem"} {
+	for _, kind := range []string{"delta", "width", "stem", "stemfew"} {
 		for i := 0; i < len(vals); i += chunk {
 			k++
 			if !ev.Mine(k) {
@@ -237,7 +290,7 @@ func TestP1Integers(t *testing.T) {
 				end = len(vals)
 			}
 			c := &intCase{Kind: kind, Values: vals[i:end]}
-			if kind == "stem" {
+			if kind == "stem" || kind == "stemfew" {
 				var vs []int32
 				for _, v := range c.Values {
 					if v >= -32768 && v <= 32767 {
